@@ -107,6 +107,7 @@ verus_unit("divisorv", "divisorv", ["C16", "C17"], [
     "ConstraintDivisor::from_assertion (every power-of-two trace length, every validated single / periodic / sequence assertion: the divisor is x^k - g^(k * first_step) with k the number of asserted steps and no exemptions; k * first_step stays inside the trace domain)",
     "divisor::get_trace_domain_value_at (g^step for the trace-domain generator; its debug assertion holds at every call)",
     "ConstraintDivisor::new",
+    "BoundaryConstraintGroup::evaluate_at (every group: the in-order sum of (trace value of the constraint's column - asserted value) * composition coefficient over the group's constraints, divided by the group divisor at x)",
     "BoundaryConstraint::evaluate_at (trace value minus the asserted value: the constant of a one-coefficient value polynomial, otherwise the value polynomial evaluated at x * offset)",
     "ConstraintDivisor::evaluate_at (the in-order product of the numerator terms x^degree - constant divided by the exemption product)",
     "theorem_zero_set (specification level: on the trace domain the numerator of from_assertion vanishes at step i exactly when i is an asserted step - i == first_step, resp. i mod stride == first_step - for every trace length, relative to 'g has order exactly n' and the monoid laws, both hypotheses)"])
